@@ -6,6 +6,7 @@ else — operand bytes, all registers including the TEMP scratch registers, flag
 memory — is symbolic."""
 from __future__ import annotations
 
+import re
 import time
 
 import z3
@@ -42,7 +43,7 @@ class PathOutcome:
         self.__dict__.update(kw)
 
 
-def run_path(eng, pre, opcode, block_n=None, addr=0x1000, sym_addr=False):
+def run_path(eng, pre, opcode, block_n=None, addr=0x1000, sym_addr=False, known=()):
     """Execute one path.  Returns PathOutcome; obligations go to eng.run.obligations."""
     EMU, OPC, asm_str = _mods()
     RN = EMU.RegisterName
@@ -76,20 +77,19 @@ def run_path(eng, pre, opcode, block_n=None, addr=0x1000, sym_addr=False):
         emu.regs._values[RN[f"TEMP{i}"]] = eng.fresh(f"TEMP{i}", 24)
     emu.regs._values[RN.PC] = eng.fresh("PC0", 20)
     halted0 = emu.state.halted
+    # ---- decode + render first: the text decides which documented semantics applies, and its
+    # definedness conditions are assumed before execution (prunes undocumented corners early)
     try:
-        ev = emu.execute_instruction(a)
-    except OPC.InvalidInstruction:
-        return PathOutcome("rejected")
+        instr = emu.decode_instruction(a)
     except core.EngineSignal:
         raise
-    except NotImplementedError as e:
-        return PathOutcome("unimplemented", detail=str(e))
-    except BaseException as e:  # noqa: BLE001 - an escaping exception is an obligation failure
-        eng.prove("no-exception", z3.BoolVal(False), detail=f"{type(e).__name__}: {e}")
+    except BaseException as e:  # noqa: BLE001
+        eng.prove("fetch-no-exception", z3.BoolVal(False), detail=f"{type(e).__name__}: {e}")
         return PathOutcome("exception", exc=type(e).__name__)
-    instr = ev.instruction
-    if isinstance(instr, EMU._FallbackInstruction):
+    if isinstance(instr, EMU._FallbackInstruction) or type(instr).__name__ == "PRE":
         return PathOutcome("rejected")
+    if type(instr).__name__ == "UnknownInstruction":
+        return PathOutcome("unimplemented", detail=instr.name())
     try:
         text = asm_str(instr.render())
     except core.EngineSignal:
@@ -98,7 +98,6 @@ def run_path(eng, pre, opcode, block_n=None, addr=0x1000, sym_addr=False):
         eng.prove("render-no-exception", z3.BoolVal(False), detail=f"{type(e).__name__}: {e}")
         return PathOutcome("exception", exc=type(e).__name__)
     length = instr.length()
-    # ---- specification
     st = isa.State({k: T(v) if not isinstance(v, int) else isa.bv(v) for k, v in init.items()} | {"PC": isa.bv(0)},
                    sm.init)
     try:
@@ -106,10 +105,22 @@ def run_path(eng, pre, opcode, block_n=None, addr=0x1000, sym_addr=False):
                     st, T(at), length, block_limit=block_n)
     except isa.NotSpecified as e:
         return PathOutcome("not-specified", text=text, detail=str(e))
-    defined = z3.And(st.defined) if st.defined else z3.BoolVal(True)
-    # vacuity: the definedness conditions must be satisfiable on this path
-    if not eng.feasible(defined):
-        return PathOutcome("outside-domain", text=text)
+    if st.defined:
+        try:
+            eng.assume(z3.And(st.defined))
+        except core.PathAbort:
+            return PathOutcome("outside-domain", text=text)
+    sm.reads.clear()
+    try:
+        ev = emu.execute_instruction(a)
+    except core.EngineSignal:
+        raise
+    except BaseException as e:  # noqa: BLE001 - an escaping exception is an obligation failure
+        eng.prove("no-exception", z3.BoolVal(False), detail=f"{text}: {type(e).__name__}: {e}")
+        return PathOutcome("exception", exc=type(e).__name__)
+    if ev.instruction.length() != length or ev.instruction.name() != instr.name():
+        eng.prove("decode-deterministic", z3.BoolVal(False), detail=text)
+    defined = z3.BoolVal(True)
     res = PathOutcome("checked", text=text, length=length)
     free = st.free
     final = {r: T(emu.regs.get(RN[r])) for r in REGS}
@@ -124,20 +135,34 @@ def run_path(eng, pre, opcode, block_n=None, addr=0x1000, sym_addr=False):
         eng.watch_cells.append((sm.init, wa))
     for x, _ in st.reads:
         eng.watch_cells.append((sm.init, x))
+    for x, _ in (_stores(st.mem, sm.init) or []):
+        eng.watch_cells.append((sm.init, x))
+    eng.watch_cells.append((sm.init, z3.BitVec("k!frame", W)))
 
     def ob(name, cond):
-        eng.prove(name, z3.Implies(defined, cond), detail=text)
+        r = eng.prove(name, cond, detail=text)
+        if r is False and known:
+            o = eng.run.obligations[-1]
+            for e in known:
+                m = e.get("match", {})
+                if "witness" not in m:
+                    continue
+                if not re.search(m.get("obligation", ""), name) or not re.search(m.get("detail", ""), text):
+                    continue
+                # the listed finding covers only inputs in its witness class: outside that class
+                # the obligation must still hold, otherwise this is a different violation
+                wit = eval(m["witness"], {"__builtins__": {}}, dict(eng.inputs))
+                r2 = eng.prove(name + "@outside-known-witness", z3.Or(wit, cond), detail=text)
+                if r2:
+                    eng.run.obligations.pop()          # the auxiliary proof
+                    o.detail = f"{text} [only within witness class of {e['id']}: {m['witness']}]"
+                    o.name = name + "@known:" + e["id"]
+                else:
+                    aux = eng.run.obligations.pop()
+                    o.model = aux.model                 # a counter-model outside the known class
+                break
+        return r
 
-    for r in ("BA", "I", "X", "Y", "U", "S", "PC"):
-        ob(f"reg:{r}", final[r] == st.r[r])
-    fmask = 0xFF
-    if "C" in free:
-        fmask &= ~1
-    if "Z" in free:
-        fmask &= ~2
-    if "Fhi" in free:
-        fmask &= 3
-    ob("reg:F", (final["F"] & fmask) == (st.r["F"] & fmask))
     exp = st.mem
     for f in free:
         if isinstance(f, tuple) and f[0] == "membits":
@@ -148,9 +173,26 @@ def run_path(eng, pre, opcode, block_n=None, addr=0x1000, sym_addr=False):
             pass
     # extensional equality stated point-wise for an arbitrary index k (k is a free symbol, hence
     # universally quantified in the validity check): much cheaper than array extensionality
-    k = z3.BitVec("k!frame", W)
-    eng.inputs.setdefault("k!frame", k)
-    ob("mem", z3.Select(sm.arr, k) == z3.Select(exp, k))
+    if _pairwise_mem(eng, sm, exp, text):
+        mem_ok = True
+    else:
+        k = z3.BitVec("k!frame", W)
+        eng.inputs.setdefault("k!frame", k)
+        mem_ok = ob("mem", z3.Select(sm.arr, k) == z3.Select(exp, k))
+    if mem_ok and not sm.arr.eq(exp):
+        # proved lemma: both memory images are equal; lets values loaded back from memory
+        # (vectors, popped values) be compared by congruence instead of store-chain reasoning
+        eng.add(sm.arr == exp)
+    for r in ("BA", "I", "X", "Y", "U", "S", "PC"):
+        ob(f"reg:{r}", final[r] == st.r[r])
+    fmask = 0xFF
+    if "C" in free:
+        fmask &= ~1
+    if "Z" in free:
+        fmask &= ~2
+    if "Fhi" in free:
+        fmask &= 3
+    ob("reg:F", (final["F"] & fmask) == (st.r["F"] & fmask))
     if st.halted is not None:
         eng.prove("halted", z3.BoolVal(bool(emu.state.halted) == st.halted), detail=text)
     else:
@@ -172,14 +214,46 @@ def run_path(eng, pre, opcode, block_n=None, addr=0x1000, sym_addr=False):
     return res
 
 
-def check_unit(pre, opcode, block_n=None, max_paths=6000, wall_s=600, sym_addr=False):
+def _stores(arr, base):
+    out = []
+    cur = arr
+    while z3.is_store(cur):
+        a, i, v = cur.children()
+        out.append((i, v))
+        cur = a
+    if not cur.eq(base):
+        return None
+    out.reverse()
+    return out
+
+
+def _pairwise_mem(eng, sm, exp, text):
+    """Sufficient condition for equal memory images: same number of stores onto the same initial
+    array with pairwise equal addresses and values, in order.  Returns True when it discharged
+    the 'mem' obligation; False => caller falls back to the point-wise extensional check."""
+    a, b = _stores(sm.arr, sm.init), _stores(exp, sm.init)
+    if a is None or b is None or len(a) != len(b):
+        return False
+    t0 = time.time()
+    for (ia, va), (ib, vb) in zip(a, b):
+        c = z3.And(ia == ib, va == vb)
+        if z3.is_true(z3.simplify(c)):
+            continue
+        if eng.feasible(z3.Not(c)):
+            return False
+    ob = core.Obligation("mem", "proved", backend="z3-pairwise-stores", seconds=time.time() - t0)
+    eng.run.obligations.append(ob)
+    return True
+
+
+def check_unit(pre, opcode, block_n=None, max_paths=6000, wall_s=600, sym_addr=False, known=()):
     """Explore all paths of one work unit; returns a plain-dict report."""
     t0 = time.time()
     run = core.Run(max_paths=max_paths, wall_s=wall_s)
     status = "ok"
     err = None
     try:
-        core.explore(lambda eng: run_path(eng, pre, opcode, block_n, sym_addr=sym_addr), run=run)
+        core.explore(lambda eng: run_path(eng, pre, opcode, block_n, sym_addr=sym_addr, known=known), run=run)
     except core.Undecided as e:
         status, err = "undecided", str(e)
     except core.EngineError as e:
@@ -203,8 +277,19 @@ def check_unit(pre, opcode, block_n=None, max_paths=6000, wall_s=600, sym_addr=F
         unknown=sum(o.status == "unknown" for o in obs),
         undecided_notes=run.undecided[:5],
         stats=run.stats.as_dict(), wall_s=round(time.time() - t0, 2),
+        slowest=sorted(((round(o.seconds, 2), o.name) for o in obs), reverse=True)[:4],
+        allow_empty=bool(kinds) and set(kinds) <= {"unimplemented", "rejected"},
+        by_backend=_count_backends(obs),
     )
     return rep
+
+
+def _count_backends(obs):
+    out = {}
+    for o in obs:
+        if o.status == "proved":
+            out[o.backend] = out.get(o.backend, 0) + 1
+    return out
 
 
 def unit_entry(unit):
@@ -213,7 +298,7 @@ def unit_entry(unit):
     env.setup()
     return check_unit(unit.get("pre"), unit["opcode"], unit.get("block_n"),
                       max_paths=unit.get("max_paths", 8000), wall_s=unit.get("wall_s", 600),
-                      sym_addr=unit.get("sym_addr", False))
+                      sym_addr=unit.get("sym_addr", False), known=unit.get("known", ()))
 
 
 # --------------------------------------------------------------------------- C07: history independence
